@@ -562,6 +562,9 @@ carquet_status_t carquet_statistics_range_overlaps(
             case CARQUET_PHYSICAL_INT64:
                 cmp = compare_int64(max_value, stats->min_value);
                 break;
+            case CARQUET_PHYSICAL_INT96:
+                cmp = compare_int96(max_value, stats->min_value);
+                break;
             case CARQUET_PHYSICAL_FLOAT:
                 cmp = compare_float(max_value, stats->min_value);
                 break;
@@ -588,6 +591,9 @@ carquet_status_t carquet_statistics_range_overlaps(
                 break;
             case CARQUET_PHYSICAL_INT64:
                 cmp = compare_int64(min_value, stats->max_value);
+                break;
+            case CARQUET_PHYSICAL_INT96:
+                cmp = compare_int96(min_value, stats->max_value);
                 break;
             case CARQUET_PHYSICAL_FLOAT:
                 cmp = compare_float(min_value, stats->max_value);
